@@ -50,6 +50,14 @@ def cases(L, tier, seed):
         yield RT.FitReportsMapping(), fit_trim, dict(assigns=a, lag_time=1), ('fit-trim', a.tolist())
 
 
+    # every state has a transition in and out, yet the graph is not strongly connected
+    hard = [np.array([[0, 1, 2, 0, 1, 2, 0, 1], [3, 4, 3, 4, 3, 4, 3, 4]]),                       # two trajectories on disjoint state sets
+            np.array([[0, 1, 0, 1, 0, 1, 2, 3, 2, 3, 2, 3, 2, 3]]),                               # two cycles joined by one irreversible hop
+            np.array([[0, 1, 2, 0, 1, 2, 3, 4, 3, 4, 3, 4, 3, 4, 3, -1], [3, 4, 3, 4, 3, 4, 3, 4, 3, 4, 3, 4, 3, 4, 3, 4]])]
+    for a in hard:
+        yield RT.FitReportsMapping(), fit_trim, dict(assigns=a, lag_time=1), ('fit-trim-hard', a.tolist())
+
+
 def replay(L, p):
     return {'outcome': 'error', 'detail': 'no symbolic obligations to replay for C11 yet'}
 
